@@ -377,6 +377,22 @@ def denorm (cc : List (Rat × Rat)) (Ab : Aff) : List (Rat × Rat) :=
 def reshape (k : Nat) (cc : List (Rat × Rat)) : List (List (Rat × Rat)) :=
   (List.range k).map fun i => (cc.drop (i * k)).take k
 
+/-- What `Poly2d._fit3/_fit4/_fit9` return once LAPACK has produced the coefficient table `cc`
+(fitted on the normalised points): de-normalise the output side, reshape, keep the input
+normalisation `Ain` as the polynomial's input transform.  (`_fit3` pads with a zero row *after*
+the de-normalisation, which is the same as de-normalising the padded table: `0·s = 0`.) -/
+def ofFit (k : Nat) (cc : List (Rat × Rat)) (Ain Ab : Aff) : Poly2d :=
+  ⟨reshape k (denorm cc Ab), Ain⟩
+
+/-- The least-squares cost LAPACK minimises in `Poly2d.fit`: squared residuals of the
+polynomial with coefficient table `cc` (shape `k×k`) on the **normalised** correspondences
+`(Ain·a_i, Ab·b_i)`. -/
+def fitCost (k : Nat) (Ain Ab : Aff) (data : List ((Rat × Rat) × (Rat × Rat))) (cc : List (Rat × Rat)) : Rat :=
+  (data.map fun q =>
+    let v := evalCC (reshape k cc) (Ain.apply q.1)
+    let w := Ab.apply q.2
+    (v.1 - w.1) * (v.1 - w.1) + (v.2 - w.2) * (v.2 - w.2)).sum
+
 end Poly2d
 
 end OdcGeo.C20
